@@ -17,7 +17,9 @@ import (
 
 var c17methods = []string{"H.Read", "H.ReadAt", "H.Write", "H.WriteAt", "H.Seek", "H.Stat", "H.ReadDir", "H.Truncate", "H.Chmod", "H.Sync", "H.Close",
 	// argument variants that an implementation might special-case before looking at the handle's state
-	"H.Seek/cur0", "H.Seek/end0", "H.Seek/cur1", "H.Read/0", "H.ReadAt/0", "H.Write/empty", "H.WriteAt/empty", "H.Truncate/0", "H.ReadDir/all", "H.ReadDir/0"}
+	"H.Seek/cur0", "H.Seek/end0", "H.Seek/cur1", "H.Read/0", "H.ReadAt/0", "H.Write/empty", "H.WriteAt/empty", "H.Truncate/0", "H.ReadDir/all", "H.ReadDir/0",
+	// ... and invalid arguments: the closed handle is what a closed os.File complains about, not the argument
+	"H.Truncate/neg", "H.Seek/neg", "H.Seek/whence9", "H.ReadAt/neg", "H.WriteAt/neg", "H.Chmod/special", "H.Chtimes", "H.Chtimes/zero"}
 var c17kinds = []string{"ro", "wo", "rw", "rw+app", "dir"}
 
 type c17case struct {
@@ -116,6 +118,17 @@ func c17step(m string) fsx.Step {
 		st.Data = ""
 	case "all":
 		st.N = -1
+	case "neg":
+		st.Off = -1
+	case "whence9":
+		st.Whence = 9
+	case "special":
+		st.Perm = uint32(os.ModeSetuid|os.ModeSticky) | 0o7777
+	case "zero":
+		st.N = 1 // zero access time
+	}
+	if m == "H.Chtimes" {
+		st.MTime = 1_500_000_000
 	}
 	return st
 }
@@ -288,7 +301,11 @@ func c17siblings(env *core.Env, cs c17case, res *core.CaseResult) {
 			continue
 		}
 		var st fsx.Step
-		switch r.Intn(6) {
+		switch r.Intn(8) {
+		case 6:
+			st = fsx.Step{K: "H.Truncate", Off: int64(r.Intn(12))} // the file shrinks below (or grows beyond) where the others stand
+		case 7:
+			st = fsx.Step{K: "H.Seek", Off: int64(8 + r.Intn(30)), Whence: io.SeekStart} // beyond the end
 		case 0:
 			st = fsx.Step{K: "H.Read", N: 1 + r.Intn(4)}
 		case 1:
@@ -312,6 +329,19 @@ func c17siblings(env *core.Env, cs c17case, res *core.CaseResult) {
 			open[slot] = false
 		}
 		if o, err := hackpadfs.SeekFile(hs.F[slot], 0, io.SeekCurrent); err == nil && open[slot] {
+			// the acting handle's own position follows from its own history only: what it read or wrote, where it sought
+			want := offs[slot]
+			switch {
+			case st.K == "H.Read" || st.K == "H.Write":
+				want += rr.N
+			case st.K == "H.Seek" && rr.OK():
+				want = st.Off
+			}
+			res.Count("own_position_checks", 1)
+			if o != want {
+				res.Violate(fmt.Sprintf("C17|%s|siblings|%s|own-offset", cs.Subject, st.K), fmt.Sprintf("[%s] %s on h%d (%s, at offset %d before) left the handle at offset %d, its own history puts it at %d", cs.Subject, st, slot, rr, offs[slot], o, want), map[string]any{"subject": cs.Subject, "script": fsx.HistoryString(script)})
+				return
+			}
 			offs[slot] = o
 		}
 		for other := 0; other < nh; other++ {
